@@ -487,7 +487,7 @@ func run(c *hl.Ctx) error {
 		return nil
 	}
 	r := c.Rand()
-	n := c.Pick(90, 1200)
+	n := c.Pick(90, 700)
 	var jobs []job
 	add := func(bucket string, f func() []map[string]any) { jobs = append(jobs, job{f, bucket}) }
 	one := func(f func() map[string]any) func() []map[string]any {
